@@ -40,9 +40,15 @@ func envInt(name string, def int) int {
 	return def
 }
 
-func Seed() int     { return envInt("VERIF_SEED", 1) }
-func Shard() int    { return envInt("VERIF_SHARD", 0) }
-func NShards() int  { n := envInt("VERIF_NSHARDS", 1); if n < 1 { n = 1 }; return n }
+func Seed() int  { return envInt("VERIF_SEED", 1) }
+func Shard() int { return envInt("VERIF_SHARD", 0) }
+func NShards() int {
+	n := envInt("VERIF_NSHARDS", 1)
+	if n < 1 {
+		n = 1
+	}
+	return n
+}
 func OutDir() string { return os.Getenv("VERIF_OUT") }
 
 // Scale returns the number of cases this process should run for a part whose whole-run
